@@ -360,6 +360,144 @@ def _format_batch(out, form, w, sg, batch, values, avalues):
                   f"{len(batch)} statements", {"kind": "batch", "form": form, "w": w, "sg": sg, "batch": batch, "spec": spec, "v": v})
 
 
+# ================================================================================================ part A2
+def _print_signals():
+    from amaranth.hdl import Signal, signed
+    return Signal(4, name="a"), Signal(signed(4), name="b"), Signal(1, name="c")
+
+
+def _print_arg(arg, sigs):
+    from amaranth.hdl import Format
+    a, b, c = sigs
+    kind, what = arg
+    if kind == "v":
+        return {"a": a, "b": b, "c": c, "amb": a - b}[what]
+    if kind == "f":
+        return Format("{:02x}", a) if what == "hex" else Format("b={}|{{}}", b)
+    return what
+
+
+def make_print(case, sigs):
+    from amaranth.hdl import Print
+    args, sep, end = case
+    kw = {}
+    if sep is not None:
+        kw["sep"] = sep
+    if end is not None:
+        kw["end"] = end
+    return Print(*[_print_arg(x, sigs) for x in args], **kw)
+
+
+def _case_name(case):
+    args, sep, end = case
+    return "(" + ",".join(f"{k}:{w}" for k, w in args) + f"):sep={sep!r}:end={end!r}"
+
+
+def print_args_batch(cases, values):
+    """One design; every Print sits in its own arm of a Switch on `sel`; one rising edge per (case, value).
+    -> (constructed flags / exception class per case, {(index, value index): text}, exception of the run)"""
+    from amaranth.hdl import Module, ClockDomain, Signal
+    sigs = _print_signals()
+    m = Module()
+    m.domains.sync = cd = ClockDomain("sync")
+    sel = Signal(range(len(cases) + 2), name="sel")
+    built = []
+    with m.Switch(sel):
+        for i, case in enumerate(cases):
+            try:
+                stmt = make_print(case, sigs)
+            except Exception as e:
+                built.append(type(e).__name__)
+                continue
+            built.append(None)
+            with m.Case(i + 1):
+                m.d.sync += stmt
+    texts = {}
+
+    def body(ctx):
+        import sys
+        a, b, c = sigs
+        for vi, (va, vb, vc) in enumerate(values):
+            ctx.set(a, va)
+            ctx.set(b, vb)
+            ctx.set(c, vc)
+            for i in range(len(cases)):
+                if built[i] is not None:
+                    continue
+                ctx.set(sel, i + 1)
+                start = sys.stdout.tell()
+                ctx.set(cd.clk, 1)
+                ctx.set(cd.clk, 0)
+                texts[(i, vi)] = sys.stdout.getvalue()[start:]
+            ctx.set(sel, 0)
+    _text, exc = _sim_body(m, body)
+    return built, texts, exc
+
+
+def single_print_case(case, values):
+    """replayable unit: one Print statement alone in a design -> list of problems"""
+    case = (tuple(tuple(x) for x in case[0]), case[1], case[2])
+    built, texts, exc = print_args_batch([case], values)
+    if built[0] is not None:
+        return [f"constructing Print{_case_name(case)} raises {built[0]}"]
+    if exc is not None:
+        return [f"simulation of Print{_case_name(case)} raises {type(exc).__name__}: {exc}"]
+    out = []
+    for vi, vals in enumerate(values):
+        want = R.expected_print(case[0], case[1], case[2], vals)
+        if texts.get((0, vi)) != want:
+            out.append(f"Print{_case_name(case)} with (a, b, c) = {vals}: simulation printed {texts.get((0, vi))!r}, Python's print() "
+                       f"writes {want!r}")
+    return out
+
+
+def w_printargs(task):
+    cases, values = task
+    out = _new()
+    warnings.simplefilter("ignore")
+    built, texts, exc = print_args_batch(cases, values)
+    suspects = []
+    for i, case in enumerate(cases):
+        _add(out, "evaluations")
+        _add(out, "print_statements_built")
+        _add(out, f"print_args_{len(case[0])}")
+        if any("{" in (x or "") or "}" in (x or "") for x in case[1:]):
+            _add(out, "print_sep_or_end_with_brace")
+        if built[i] is not None:
+            suspects.append(i)
+            continue
+        if exc is not None:
+            suspects.append(i)
+            continue
+        for vi, vals in enumerate(values):
+            _add(out, "evaluations")
+            _add(out, "print_arg_texts_compared")
+            want = R.expected_print(case[0], case[1], case[2], vals)
+            if len(case[0]) > 1 or case[1:] != (None, None):
+                _add(out, "distinct_nontrivial")
+            if texts.get((i, vi)) != want:
+                suspects.append(i)
+                break
+    for i in suspects:
+        if len(out["violations"]) >= MAX_CONFIRM:
+            _add(out, "violations_suppressed")
+            continue
+        problems = single_print_case(cases[i], values)
+        if problems:
+            _viol(out, "printargs:" + _case_name(cases[i]), "; ".join(problems[:2]),
+                  {"kind": "printargs", "case": [list(map(list, cases[i][0])), cases[i][1], cases[i][2]], "values": [list(v) for v in values]})
+        else:
+            _viol(out, "printargs-batch:" + _case_name(cases[i]), f"Print{_case_name(cases[i])} is right alone but wrong (or the run raised "
+                  f"{type(exc).__name__ if exc else 'nothing'}) inside a design with {len(cases)} Print statements",
+                  {"kind": "printargs-batch", "cases": [[list(map(list, c[0])), c[1], c[2]] for c in cases], "values": [list(v) for v in values]})
+    if cases and not out["samples"]:
+        mid = cases[len(cases) // 2]
+        out["samples"].append({"part": "print-arguments", "print": _case_name(mid), "values(a,b,c)": list(values[1]),
+                               "text": R.expected_print(mid[0], mid[1], mid[2], values[1])})
+    del out["_sigs"]
+    return out
+
+
 # ================================================================================================ part B
 def build_timing(desc):
     """desc: dict(p=program desc | None, n=program desc | None, cnt0, k0, arst) -> (module, signals)"""
@@ -688,7 +826,7 @@ def w_timing(task):
 
 # ================================================================================================ driver
 def _dispatch(t):
-    return {"format": w_format, "timing": w_timing}[t[0]](t[1])
+    return {"format": w_format, "timing": w_timing, "printargs": w_printargs}[t[0]](t[1])
 
 
 def format_tasks(rep):
@@ -747,7 +885,9 @@ def run(rep):
     ttasks = timing_tasks(rep)
     for s in G.MALFORMED:
         rep.require(not R.python_accepts(s) and not R.grammar_accepts(s, 8, False), f"malformed specification {s!r} is not invalid")
-    tasks = rotate(ttasks + ftasks, rep.seed)
+    pcases = G.print_cases(rep.tier)
+    ptasks = [("printargs", (ch, G.PRINT_VALUES), rep.tier) for ch in chunks(pcases, 240)]
+    tasks = rotate(ttasks + ftasks + ptasks, rep.seed)
     walls = {}
     test_classes = set()
     by_part = {}
@@ -775,7 +915,10 @@ def run(rep):
                "products, and a list of malformed strings) x 10 shapes (u0 u1 u4 u8 s1 s4 s8 u16 u21 u24) x operand forms {signal, ~signal, "
                "as_signed/as_unsigned; quick tier: the two secondary forms on the no-fill sub-product}: Format acceptance == documented "
                "grammar; for accepted ones, all values (width<=4 quick, <=8 thorough) or corner values: text printed by a sync Print and "
-               "message of the failing Assert == Python format(). Part B: control-flow programs (12 forms, nesting depth <= 2, every hole "
+               "message of the failing Assert == Python format(). Print arguments: every tuple of 1-2 arguments over 13 kinds (Amaranth "
+               "values u4 / s4 / u1 / a-b, two Format objects, plain str incl. braces, plain int; 3 arguments over 6 kinds quick / all "
+               "thorough) x 11 sep x 12 end (defaults, '', ', ', newline, strings with { } {{ }} {} {0}): construction must not raise "
+               "and the text == Python print(*rendered, sep, end) for 4 value triples. Part B: control-flow programs (12 forms, nesting depth <= 2, every hole "
                "holds Print/Assert/Cover/Assume/Print; tests and If conditions include 2-3 bit unsigned / signed values taken directly from "
                "an input, registers, slices and expressions: pass iff NON-ZERO) in a rising- and a falling-edge domain (+3 designs with "
                "an asynchronous reset, +24 asynchronous-reset designs (rising / falling edge) whose statements sit in a fragment without "
@@ -806,6 +949,9 @@ def run(rep):
     missing = sorted(k for k, ok in multibit.items() if not ok)
     rep.require(not guards or not missing, f"multi-bit tests never met in a conforming step: {missing}")
     rep.setcov("multibit_test_classes_seen", sorted(c for c in test_classes if c.split(":")[1] in G.MULTIBIT))
+    for key in ("print_arg_texts_compared", "print_args_1", "print_args_2", "print_args_3", "print_sep_or_end_with_brace"):
+        rep.require(not guards or rep.cov.get(key, 0) > 0, f"{key} never exercised")
+    rep.require(not guards or rep.cov.get("print_statements_built", 0) == len(pcases), "every Print-argument case was processed")
     for key in ("timing_active_edges", "timing_inactive_edges", "timing_no_edge", "timing_prints", "timing_stops",
                 "timing_active_edges_nothing_enabled", "timing_both_domains_edge", "timing_rst_events",
                 "timing_mon_rst_rise_would_fail", "timing_mon_rst_rise_would_pass", "timing_mon_rst_rise_would_print",
@@ -858,6 +1004,8 @@ def _task_name(t):
     if t[0] == "format":
         w, sg, form, specs = t[1][:4]
         return f"format:{form}:{_shape_name(w, sg)}:{specs[0]!r}..{specs[-1]!r}"
+    if t[0] == "printargs":
+        return "printargs:" + _case_name(t[1][0][0]) + ".." + _case_name(t[1][0][-1])
     return "timing:" + timing_tag(t[1][0])
 
 
@@ -935,6 +1083,13 @@ def replay(payload):
                 if task[1][0].get(dom):
                     task[1][0][dom] = tuple(task[1][0][dom])
         _k, out, _w = _dispatch_timed(task)
+        return [v["what"] for v in out["violations"]]
+    if kind == "printargs":
+        c = payload["case"]
+        return single_print_case((c[0], c[1], c[2]), [tuple(v) for v in payload["values"]])
+    if kind == "printargs-batch":
+        cases = [(tuple(tuple(x) for x in c[0]), c[1], c[2]) for c in payload["cases"]]
+        out = w_printargs((cases, [tuple(v) for v in payload["values"]]))
         return [v["what"] for v in out["violations"]]
     if kind == "timing":
         from ..sim.driver import elaborate
